@@ -184,7 +184,54 @@ def staticJudge (f : List String) (out : String) : String :=
               else "bad:unparsable:" ++ out
   | _, _ => "bad:unparsable:" ++ out
 
+/-- "a-b" | "a-" | "-n" against a representation of `size` bytes (the generator only sends
+satisfiable ranges) -/
+def parseRange (s : String) (size : Nat) : Option (Nat × Nat) :=
+  match s.splitOn "-" with
+  | ["", n] => n.toNat?.map fun n => (size - n, size - 1)
+  | [a, ""] => a.toNat?.map fun a => (a, size - 1)
+  | [a, b] => do pure (← a.toNat?, min (← b.toNat?) (size - 1))
+  | _ => none
+
+def showRangeObs (o : Obs) (lo hi size : Nat) : String :=
+  let ce := if o.ce.isEmpty then "-" else Driver.hex o.ce
+  s!"{o.status} {ce} {showCL o.cl} {lo}-{hi}/{size} slice-ok"
+
+def rangeModel (f : List String) : String :=
+  match f with
+  | [bl, p, ae, sib, content, plens, rng] =>
+    match parseStatic [bl, p, ae, sib, content, plens] with
+    | none => "bad-case"
+    | some c =>
+      let size := match pickSibling c.siblings c.ae with
+        | some cd => sibLen c cd
+        | none => c.content.length
+      match parseRange rng size with
+      | none => "bad-case"
+      | some (lo, hi) =>
+        let i := rangeInner c.siblings c.ae (hi + 1 - lo)
+        showRangeObs (observe (gzipRun c.blocks c.path c.ae i)) lo hi size ++ "\t" ++
+          showRangeObs (observe (plainRun i)) lo hi size
+  | _ => "bad-case"
+
+def parseRangeObs (s : String) : Option (Obs × String × Bool) :=
+  match s.splitOn " " with
+  | [st, ce, cl, cr, sl] => do
+    let ce ← if ce = "-" then pure [] else Driver.unhex ce
+    pure ({ status := ← st.toNat?, ce := ce, cl := ← parseCL cl, varyAE := false, etag := .none, body := .raw [] },
+          cr, sl == "slice-ok")
+  | _ => none
+
+def rangeJudge (f : List String) (out : String) : String :=
+  match f, out.splitOn "\t" with
+  | [_, _, ae, _, _, _, _], [g, p] =>
+    match Driver.unhex ae, parseRangeObs g, parseRangeObs p with
+    | some ae, some (g, gr, gs), some (p, pr, ps) => rangeVerdict ae g p gr pr gs ps
+    | _, _, _ => "bad:unparsable:" ++ out
+  | _, _ => "bad:unparsable:" ++ out
+
 def streams : List Driver.Stream := [
+  { name := "c18.range", model := rangeModel, judge := rangeJudge },
   { name := "c18.wrap", model := wrapModel, judge := wrapJudge },
   { name := "c18.static", model := staticModel, judge := staticJudge }
 ]
